@@ -32,7 +32,7 @@ SliceOf(n, k, a1, a2, a3) ==
     [] k = 2 -> <<IF a1 = U THEN 0 ELSE Clamp(n, a1), IF a2 = U THEN n ELSE Clamp(n, a2), 1>>
     [] k = 3 -> <<IF a1 = U THEN 0 ELSE Clamp(n, a1), IF a2 = U THEN n ELSE Clamp(n, a2), IF a3 = U THEN 1 ELSE a3>>
 
-Pred(p, x) == CASE p = 0 -> x % 2 = 0 [] p = 1 -> x % 2 # 0 [] p = 2 -> x > 3 [] p = 3 -> FALSE [] OTHER -> TRUE
+Pred(p, x) == CASE p = 0 -> x % 2 = 0 [] p = 1 -> x % 2 # 0 [] p = 2 -> x > 3 [] p = 3 -> FALSE [] p = 5 -> x % 2 # 0 [] OTHER -> TRUE
 Fun(f, x) == CASE f = 0 -> x + 100 [] f = 1 -> 2 * x [] OTHER -> -x
 
 RECURSIVE SelectSeq2(_, _)
